@@ -165,6 +165,11 @@ def enumerate_cases(tier, seed):
         term += [c for c in corpus() if len(c) < 400]
     else:
         term = term[::4] + [c for c in corpus() if len(c) < 150][:10]
+    # long numeric fields (high-precision weights, transition lists, parameters, masses): a corrupted byte behind a long run
+    # of digits is where a backtracking pattern explodes
+    term += ["N{[>][<|0.3333333333333333333333333333333333333|]CC[>], [<|0.6666666666666666666666666666666666667|]CO[>][<]}|gauss(40, 0)|F",
+             "N{[>][<]CC[>|0.12345678901234567890123 0.23456789012345678901234 0.0000000000000000000000 1e-30|], [<]CO[>][<]}|gauss(40, 0)|F",
+             "N{[>][<]CC[>][<]}|gauss(40.000000000000000000000000000001, 0.00000000000000000000000000000)|F.|33.333333333333333333333333333333333333%|"]
     term += ["CC.|50%|N{[>][<]CC[>][<]}|gauss(40, 0)|F.|500|", "CCO.|300|", "{[][$]CC[$]; [$][H][]}|flory_schulz(0.1)|.|10%|C.|1e3|"]
     step = 3 if tier == "quick" else 4
     for lo in range(0, len(term), step):
@@ -381,6 +386,7 @@ def eval_case(kind, data):
                     edits.add(b[:i] + ch + b[i:])
                     if i < len(b):
                         edits.add(b[:i] + ch + b[i + 1 :])
+            slow = 0
             for m in sorted(edits):
                 res["states"] += 1
                 res["traces"] += 1
@@ -389,6 +395,9 @@ def eval_case(kind, data):
                     got, det = attempt(m, level=level, gen=False)
                     if got in ("timeout", "memory"):
                         viol(res, f"C15|non-termination|parse-{level}|{got}", f"parsing {m!r} as {level}: {got}", {"text": m, "level": level})
+                        slow += 1
+                if slow >= 2:
+                    break  # every further edit of this base would cost its full time limit again; the verdict is in
             ops.add("termination")
     res["evals"] = res["traces"]
     res["outcomes"] = sorted(ops)
